@@ -808,7 +808,8 @@ _RESERVED_WORDS = ('data_', 'save_', 'loop_', 'stop_', 'global_')
 
 
 def _quotes_for_string_value(value: str) -> str | None:
-    if '\n' in value:
+    if '\n' in value or '\r' in value:
+        # CIF 1.1 line terminators are LF, CR LF, and a bare CR.
         return ';'
     if "'" in value:
         if '"' in value:
@@ -846,7 +847,7 @@ def _format_value(value: Any) -> str:
     s = _encode_non_ascii(s)
 
     if (quotes := _quotes_for_string_value(s)) == ';':
-        if '\n;' in s:
+        if '\n;' in s or '\r;' in s:
             # A line starting with ';' would terminate the text field early.
             raise ValueError(
                 "Cannot encode string in CIF 1.1: it contains a line that starts "
